@@ -401,6 +401,7 @@ func init() {
 		ruleFormatData(c, "FORMAT-DATA", p.ModulePkgs())
 		ruleNilBreak(c, "NIL-ELEMENT-BREAK", p.ModulePkgs())
 		ruleWalkCut(c, "WALK-CUT", p.ModulePkgs(), 0)
+		ruleInPlaceFilter(c, "INPLACE-FILTER-PARAM", p.ModulePkgs())
 		ruleDerivedKeyStores(c, "DERIVED-KEY-STORE", p.ModulePkgs())
 		ruleAnticipatory(c, "", p.ModulePkgs())
 		ruleTwinParam(c, "TWIN-PARAM-UNUSED", p.ModulePkgs())
